@@ -2,7 +2,7 @@
 import math, sys
 import lib
 from common import fkey, enc_pos, enc_ints, enc_keys, dec_pos
-from runlevel import SWARM, GREEDY_AGENTS, GREEDY_RANK, ADAPTIVE, budget, fnum
+from runlevel import SWARM, GREEDY_AGENTS, GREEDY_RANK, ADAPTIVE, budget, fnum, xnum, xeq
 
 FMAX_KEY = fkey(sys.float_info.max)
 
@@ -344,6 +344,27 @@ def oracle_c02(rec):
         bf = [fnum(r[1]) for r in getattr(h, 'best_agent', [])]
         if any(bf[k + 1] > bf[k] for k in range(len(bf) - 1)):
             issues.append(dict(what='history-best-increased', series=bf))
+        # the reported best fitness - in the records and on the space - is *exactly* a value the objective returned (an integer
+        # beyond 2**53, a rational, an extended-precision number is not the double nearest to it)
+        raws = [e['raw'] for e in rec['events'] if e['t'] == 'eval' and 'raw' in e]
+        if raws and stale is None and not (rec['cfg'].get('prior') or {}).get('same_space') and rec['cfg'].get('objective') not in ('view0', 'view00', 'bufout'):
+            try:
+                exact = set()
+                for r_ in raws:
+                    x_ = xnum(r_)
+                    if x_ == x_:
+                        exact.add(x_)
+                reported = [('record', t_, r[1]) for t_, r in enumerate(getattr(h, 'best_agent', []))]
+                if rec.get('space') is not None:
+                    reported.append(('space', None, rec['space'].best_agent.fit))
+                for where, t_, v_ in reported:
+                    x_ = xnum(v_)
+                    if x_ == x_ and exact and x_ not in exact:
+                        issues.append(dict(what='best-fitness-never-returned', where=where, t=t_, reported=repr(v_)[:60],
+                                           nearest=repr(min(exact, key=lambda q: abs(q - x_) if abs(q) != float('inf') and abs(x_) != float('inf') else 0))[:60]))
+                        break
+            except Exception:
+                pass
         n = rec['final_live']['n']
         if any(j == n for _, j in rec['final_live']['alias']):
             issues.append(dict(what='best-shares-storage', ev='final', pairs=rec['final_live']['alias']))
@@ -480,11 +501,11 @@ def oracle_c04(rec, driver=None):
             sn = e.get('snap')
             if sn is not None and k == 'agents':
                 state = [(a['real'].tolist(), a['fit']) for a in sn['pop']]
-                if not same_record(state, got):
+                if not same_record(state, got, exact=False):
                     issues.append(dict(what='record-is-not-the-space', key=k, t=t, space=repr(state)[:300], stored=repr(got)[:300]))
             if sn is not None and k == 'best_agent':
                 state = (sn['best']['pos'].tolist(), sn['best']['fit'])
-                if not same_record(state, got):
+                if not same_record(state, got, exact=False):
                     issues.append(dict(what='record-is-not-the-space', key=k, t=t, space=repr(state)[:300], stored=repr(got)[:300]))
         # earlier records must not have moved since they were written
         for k, old in e['histcopy'].items():
@@ -508,10 +529,10 @@ def oracle_c04(rec, driver=None):
     if fin is not None and dumps and 'agents' in keys and len(attrs['agents']) == N:
         last = attrs['agents'][-1]
         now = [(a['real'].tolist(), a['fit']) for a in fin['pop']]
-        if not same_record(last, now):
+        if not same_record(last, now, exact=False):
             issues.append(dict(what='last-record-is-not-final-state', key='agents', record=repr(last)[:200], final=repr(now)[:200]))
     if fin is not None and dumps and len(attrs.get('best_agent', [])) == N:
-        if not same_record(attrs['best_agent'][-1], (fin['best']['pos'].tolist(), fin['best']['fit'])):
+        if not same_record(attrs['best_agent'][-1], (fin['best']['pos'].tolist(), fin['best']['fit']), exact=False):
             issues.append(dict(what='last-record-is-not-final-state', key='best_agent'))
     # write-through test: change every agent in place, records must not move
     before = {k: repr(v) for k, v in attrs.items() if k != 'best_tree'}
@@ -547,12 +568,16 @@ def oracle_c04(rec, driver=None):
     return issues, stats
 
 
-def same_record(a, b):
+def same_record(a, b, exact=True):
+    """`exact=False` when one side is a recorder snapshot (which holds fitness values as doubles)"""
     if isinstance(a, (list, tuple)) and isinstance(b, (list, tuple)):
-        return len(a) == len(b) and all(same_record(x, y) for x, y in zip(a, b))
+        return len(a) == len(b) and all(same_record(x, y, exact) for x, y in zip(a, b))
     if isinstance(a, (list, tuple)) or isinstance(b, (list, tuple)):
         return False
     try:
+        if exact:
+            # (exactly the same number: an integer beyond 2**53 or a rational is not the float nearest to it)
+            return xeq(a, b)
         fa, fb = fnum(a), fnum(b)
         return fa == fb or (fa != fa and fb != fb)
     except Exception:
@@ -790,11 +815,12 @@ def oracle_c20(rec):
         for j, (p, f) in enumerate(ag):
             stats['records'] += 1
             pos = np.array(loc[j] if (kind in SWARM and loc is not None) else p, dtype=float)
-            v = fnum(of(pos))
+            rv = of(pos)
+            v = fnum(rv)
             fits.append(fnum(f))
-            if not (v == fnum(f) or (v != v and fnum(f) != fnum(f))):
+            if not xeq(rv, f):
                 issues.append(dict(what='untruthful-record', t=t, agent=j, stored=fnum(f), objective=v,
-                                   position=pos.tolist()))
+                                   position=pos.tolist(), stored_exact=repr(f)[:60], objective_exact=repr(rv)[:60]))
         if prev is not None:
             if kind in GREEDY_AGENTS or kind in SWARM:
                 for j, (a, b) in enumerate(zip(prev, fits)):
@@ -807,6 +833,37 @@ def oracle_c20(rec):
                     if b > a:
                         issues.append(dict(what='rank-worse', t=t, rank=j, before=a, after=b))
         prev = fits
+    # the per-agent records of the History the task returned say the same, and still do after the History went to disk and
+    # back (what a user analyses later is usually the loaded file)
+    h = rec.get('history')
+    if h is not None and kind not in ('GP', 'WCA') and kind not in SWARM and hasattr(h, 'agents') and cfg.get('objective') not in ('view0', 'view00', 'bufout'):
+        import os, tempfile
+        views = [('returned', h)]
+        try:
+            d_ = tempfile.mkdtemp(prefix='c20_', dir=os.getcwd())
+            fn_ = os.path.join(d_, 'task.history')
+            h.save(fn_)
+            h2 = L['History']()
+            h2.load(fn_)
+            views.append(('loaded', h2))
+        except Exception as ex:
+            issues.append(dict(what='history-save-load-raised', error=type(ex).__name__ + ': ' + str(ex)[:120]))
+        finally:
+            import shutil
+            shutil.rmtree(d_, ignore_errors=True)
+        for name_, hh in views:
+            bad = None
+            for t, recs in enumerate(getattr(hh, 'agents', [])):
+                for j, (p, f) in enumerate(recs):
+                    rv = of(np.array(p, dtype=float))
+                    if not xeq(rv, f):
+                        bad = dict(what='untruthful-history-record', history=name_, t=t, agent=j, stored_exact=repr(f)[:60],
+                                   objective_exact=repr(rv)[:60], position=p)
+                        break
+                if bad:
+                    break
+            if bad:
+                issues.append(bad)
     return issues, stats
 
 
